@@ -345,7 +345,9 @@ func mainImplementation(ctx context.Context, stdout, stderr io.Writer, args []st
 		if err != nil {
 			return fmt.Errorf("could not convert %v to json: %w", historySize, err)
 		}
-		fmt.Fprintf(stdout, "%s\n", j)
+		if _, err := fmt.Fprintf(stdout, "%s\n", j); err != nil {
+			return fmt.Errorf("writing output: %w", err)
+		}
 	} else {
 		if _, err := io.WriteString(
 			stdout, historySize.TableString(rg.Groups(), threshold, nameStyle),
